@@ -234,4 +234,20 @@ Definition run (op : bytes) (args : list val) : val :=
     match args with [a] => match arg_i32 a with Some s => val_of_R VInt (unwrap (east_opt s)) | None => VBad end | _ => VBad end
   else if op_is op "z.pwest" then
     match args with [a] => match arg_i32 a with Some s => val_of_R VInt (unwrap_r (west_opt s)) | None => VBad end | _ => VBad end
+  (* DateTime::from_naive_utc_and_offset / from_utc (deprecated): DateTime { datetime, offset };
+     timezone(): TimeZone::from_offset(&self.offset), for FixedOffset the offset itself *)
+  else if op_is op "z.mk" then
+    match args with
+    | [o; n] => match arg_off o, dec_ndt n with
+                | Some off, Some u => let z := mk_dtz u off in VTup [enc_dtz z; VInt (dz_off z); enc_dtz z]
+                | _, _ => VBad end
+    | _ => VBad end
+  (* DateTime::from_local (deprecated): let datetime_utc = datetime - offset.fix() (the panicking operator) *)
+  else if op_is op "z.pfromlocal" then
+    match args with
+    | [o; n] => match arg_off o, dec_ndt n with
+                | Some off, Some l =>
+                    val_of_R enc_dtz (let* u := unwrap_r (ndt_checked_sub_offset l off) in Val (mk_dtz u off))
+                | _, _ => VBad end
+    | _ => VBad end
   else VErr B"NOOP".
